@@ -36,6 +36,19 @@ SI_DIR = ("    sia = si_b2a(storageindex)\n"
           "    sia = sia.decode(\"ascii\")\n"
           "    return os.path.join(sia[:2], sia)\n")
 
+# an in-memory resume position for big prefixdirs (the mechanism of seeded C27-G)
+RESUME_INIT = (F, "        self.bucket_cache = (None, [])\n",
+               "        self.bucket_cache = (None, [])\n        self._resume_point = (None, 0)\n")
+RESUME_HEAD = ("        first = 0\n"
+               "        resume_prefix, resume_offset = self._resume_point\n"
+               "        if resume_prefix == prefix and resume_offset <= len(buckets):\n"
+               "            first = resume_offset\n")
+RESUME_LOOP = ("        for offset in range(first, len(buckets)):\n"
+               "            bucket = buckets[offset]\n"
+               + PP_BODY.split("\n", 1)[1].replace(
+                   "                raise TimeSliceExceeded()\n",
+                   "                self._resume_point = (prefix, offset + 1)\n                raise TimeSliceExceeded()\n"))
+
 MUTANTS = [
     # ---- C27.1 progress markers
     M("bucket-marker-before-work", F,
@@ -322,6 +335,77 @@ MUTANTS = [
     M("si-dir-renamed-local-wrong-prefix", SC_COMMON, SI_DIR, SI_DIR.replace("sia[:2]", "sia[1:3]").replace("sia", "name"), "C27.2"),
     M("si-dir-prefix-of-undecoded-other-value", SC_COMMON, SI_DIR,
       "    sia = si_b2a(storageindex)\n    sia = sia.decode(\"ascii\")\n    return os.path.join(sia[:2].lower()[:1], sia)\n", "C27.2"),
+    # ---- C27.7 the bucket loop walks the whole list (seeded C27-G: an in-memory resume offset that is never cleared)
+    M("resume-offset-never-cleared", F, PP_BODY, RESUME_HEAD + RESUME_LOOP, "C27.7", edits=[RESUME_INIT],
+      note="seeded C27-G: (prefix, offset) recorded when a slice runs out is still in force when the next cycle reaches "
+           "that prefixdir - its first `offset` buckets are skipped in every later cycle"),
+    M("resume-offset-sliced-never-cleared", F, PP_BODY,
+      "        skip = self._resume_at.get(prefix, 0)\n"
+      "        for n, bucket in enumerate(buckets[skip:]):\n"
+      + PP_BODY.split("\n", 1)[1].replace(
+          "                raise TimeSliceExceeded()\n",
+          "                self._resume_at[prefix] = skip + n + 1\n                raise TimeSliceExceeded()\n"),
+      "ANALYSIS-ERROR", edits=[(F, "        self.bucket_cache = (None, [])\n", "        self.bucket_cache = (None, [])\n        self._resume_at = {}\n")],
+      note="enumerate over a slice is not a recognised walk of the list: fail closed"),
+    M("resume-offset-slice-never-cleared", F, PP_BODY,
+      "        skip = self._resume_at if self._resume_prefix == prefix else 0\n"
+      "        for bucket in buckets[skip:]:\n"
+      + PP_BODY.split("\n", 1)[1].replace(
+          "                raise TimeSliceExceeded()\n",
+          "                self._resume_prefix = prefix\n                self._resume_at = buckets.index(bucket) + 1\n"
+          "                raise TimeSliceExceeded()\n"),
+      "C27.7", edits=[(F, "        self.bucket_cache = (None, [])\n",
+                       "        self.bucket_cache = (None, [])\n        self._resume_prefix = None\n        self._resume_at = 0\n")],
+      note="the same mechanism in another spelling: a slice instead of an index range, two attributes instead of a tuple"),
+    M("resume-offset-cleared-in-overridden-hook", F, PP_BODY, RESUME_HEAD + RESUME_LOOP, "C27.7",
+      edits=[RESUME_INIT, (F, "        pass\n\n    def yielding(self, sleep_time):",
+                           "        self._resume_point = (None, 0)\n\n    def yielding(self, sleep_time):")],
+      note="the reset sits in ShareCrawler.finished_cycle, a hook the lease crawler overrides without upcall: it never "
+           "runs for the crawler that matters"),
+    M("resume-offset-cleared-on-resumed-cycles-only", F, PP_BODY, RESUME_HEAD + RESUME_LOOP, "C27.7",
+      edits=[RESUME_INIT, (F, "        cycle = state[\"current-cycle\"]\n\n        for i in range(",
+                           "        cycle = state[\"current-cycle\"]\n        if self.last_complete_prefix_index >= 0:\n"
+                           "            self._resume_point = (None, 0)\n\n        for i in range(")],
+      note="a reset that a freshly started cycle (prefix index -1) does not pass"),
+    M("bucket-loop-skips-first", F, "        for bucket in buckets:\n", "        for bucket in buckets[1:]:\n", "C27.7"),
+    M("bucket-loop-stops-early", F, "        for bucket in buckets:\n", "        for bucket in buckets[:-1]:\n", "C27.7"),
+    M("bucket-index-loop-from-one", F, PP_BODY,
+      "        for k in range(1, len(buckets)):\n            bucket = buckets[k]\n" + PP_BODY.split("\n", 1)[1], "C27.7"),
+    M("benign-resume-offset-cleared-after-loop", F, PP_BODY,
+      RESUME_HEAD + RESUME_LOOP + "        self._resume_point = (None, 0)\n", None, edits=[RESUME_INIT],
+      note="the repaired form of seeded C27-G: the position is dropped when the prefixdir is finished"),
+    M("benign-resume-offset-consumed-on-read", F, PP_BODY,
+      RESUME_HEAD.replace("        if resume_prefix", "        self._resume_point = (None, 0)\n        if resume_prefix") + RESUME_LOOP,
+      None, edits=[RESUME_INIT],
+      note="equally sound: the position is dropped where it is read; the only later store is followed by the raise"),
+    M("benign-resume-offset-cleared-at-cycle-end", F, PP_BODY, RESUME_HEAD + RESUME_LOOP, None,
+      edits=[RESUME_INIT, (F, "        # yay! we finished the whole cycle\n        self.last_complete_prefix_index = -1\n",
+                           "        # yay! we finished the whole cycle\n        self.last_complete_prefix_index = -1\n"
+                           "        self._resume_point = (None, 0)\n")]),
+    M("benign-resume-offset-cleared-at-cycle-start", F, PP_BODY, RESUME_HEAD + RESUME_LOOP, None,
+      edits=[RESUME_INIT, (F, "        if state[\"current-cycle\"] is None:\n            self.last_cycle_started_time = time.time()\n",
+                           "        if state[\"current-cycle\"] is None:\n            self._resume_point = (None, 0)\n"
+                           "            self.last_cycle_started_time = time.time()\n")]),
+    M("benign-resume-offset-keyed-to-cycle", F, PP_BODY,
+      RESUME_HEAD.replace("resume_prefix, resume_offset =", "resume_cycle, resume_prefix, resume_offset =").replace(
+          "if resume_prefix == prefix", "if resume_cycle == cycle and resume_prefix == prefix")
+      + RESUME_LOOP.replace("(prefix, offset + 1)", "(cycle, prefix, offset + 1)"), None,
+      edits=[(RESUME_INIT[0], RESUME_INIT[1], RESUME_INIT[2].replace("(None, 0)", "(None, None, 0)"))],
+      note="never cleared, but only honoured in the cycle that recorded it"),
+    M("resume-offset-keyed-to-other-cycle", F, PP_BODY,
+      RESUME_HEAD.replace("resume_prefix, resume_offset =", "resume_cycle, resume_prefix, resume_offset =").replace(
+          "if resume_prefix == prefix", "if resume_cycle != cycle and resume_prefix == prefix")
+      + RESUME_LOOP.replace("(prefix, offset + 1)", "(cycle, prefix, offset + 1)"), "C27.7",
+      edits=[(RESUME_INIT[0], RESUME_INIT[1], RESUME_INIT[2].replace("(None, 0)", "(None, None, 0)"))]),
+    M("benign-bucket-index-loop", F, PP_BODY,
+      "        for k in range(len(buckets)):\n            bucket = buckets[k]\n" + PP_BODY.split("\n", 1)[1], None),
+    M("benign-bucket-enumerate-loop", F, PP_BODY,
+      "        for k, bucket in enumerate(buckets):\n" + PP_BODY.split("\n", 1)[1], None),
+    M("benign-bucket-loop-over-copy", F, PP_BODY,
+      "        todo = list(buckets)\n        for bucket in todo:\n" + PP_BODY.split("\n", 1)[1], None),
+    M("bucket-loop-is-a-while", F, PP_BODY,
+      "        todo = list(buckets)\n        while todo:\n            bucket = todo.pop(0)\n" + PP_BODY.split("\n", 1)[1],
+      "ANALYSIS-ERROR", note="not a for loop: the walk is not recognised, fail closed"),
     # ---- vanished anchors
     M("vanish-start-current-prefix", F, "    def start_current_prefix(self, start_slice):",
       "    def start_current_prefixX(self, start_slice):", "ANALYSIS-ERROR"),
